@@ -387,7 +387,7 @@ impl RefModel {
             }
             Rsi => {
                 let (up, down) = match self.prev {
-                    None => (dd(0.1), dd(0.1)),
+                    None => (Dd::ONE / dd(10.0), Dd::ONE / dd(10.0)),
                     Some(px) => {
                         if s > px {
                             (dd(s) - dd(px), Dd::ZERO)
@@ -506,7 +506,7 @@ impl RefModel {
                     out.v[0] = Dd::ZERO;
                     out.c[0] = 1.0;
                 } else {
-                    out.v[0] = (tp - mean) / (dd(0.015) * mad);
+                    out.v[0] = (tp - mean) / (dd(15.0) / dd(1000.0) * mad);
                     out.c[0] = self.m / mad.to_f64();
                 }
             }
